@@ -175,6 +175,15 @@ def value_attr(I, v, name):
             if v.columns is None:
                 raise Undecided("frame columns")
             return v.columns
+    if v.__class__.__name__ == "SRowsTable":
+        if name == "loc":
+            from .libpd import _Loc
+            return _Loc(v)
+        raise Undecided(f"attribute .{name} of rows table")
+    if v.__class__.__name__ == "SRow":
+        if (k, name) in METHODS:
+            return LibMethod(v, name)
+        raise Undecided(f"attribute .{name} of row")
     if v.__class__.__name__ == "STable":
         if (k, name) in METHODS:
             return LibMethod(v, name)
@@ -1501,3 +1510,26 @@ for _p in ("sklearn.metrics.mean_absolute_error", "sklearn.metrics.mean_squared_
             return r
         return f
     LIB[_p] = _mk2(_p)
+
+
+@lib("sklearn.model_selection.ParameterGrid", "sklearn.model_selection.ParameterSampler")
+def sk_param_grid(I, args, kwargs):
+    """candidate enumeration is sklearn's: the contract supplies the resulting candidate list on the tuner object
+    (ghost attribute `candidates`), ParameterGrid / ParameterSampler just hand it over (assumed external)"""
+    USED.add("sklearn ParameterGrid / ParameterSampler: external enumeration of candidate parameter sets (assumed; candidates supplied symbolically)")
+    g = args[0]
+    cand = getattr(g, "candidates", None)
+    if cand is None:
+        raise Undecided("ParameterGrid over a concrete grid")
+    return SList(list(cand), "list")
+
+
+@lib("sklearn.model_selection._search._check_param_grid")
+def sk_check_param_grid(I, args, kwargs):
+    return None
+
+
+@lib("sklearn.model_selection.check_cv")
+def sk_check_cv(I, args, kwargs):
+    USED.add("sklearn.model_selection.check_cv(cv): returns an object that has a split method unchanged (assumed)")
+    return args[0]
